@@ -976,6 +976,42 @@ def paren_family():
     return out
 
 
+def string_family():
+    """Systematic product: where consecutive string-literal statements stand (module, class, def, if, loop,
+    try, with, nested) x how the literals are spelled (quotes, implicit concatenation on one line or inside
+    parentheses) x what follows.  Same keying as the parenthesis family (the label starts with paren-family)."""
+    bodies = {
+        "module": "{B}",
+        "class": "class K:\n{B4}\nafter = 1\n",
+        "def": "def fn(a):\n{B4}\nafter = 1\n",
+        "if": "if cond:\n{B4}\nelse:\n    pass\nafter = 1\n",
+        "for-else": "for i in y:\n    pass\nelse:\n{B4}\nafter = 1\n",
+        "try": "try:\n{B4}\nexcept E:\n{B4}\nfinally:\n    pass\nafter = 1\n",
+        "with": "with ctx as c:\n{B4}\nafter = 1\n",
+        "def-in-if": "if cond:\n    def fn(a):\n{B8}\nafter = 1\n",
+        "method": "class K:\n    def m(self):\n{B8}\n    x = 1\nafter = 1\n",
+    }
+    runs = [
+        ['"""doc."""', '"""second."""'],
+        ["'one'", "'two'"],
+        ['"one"', "'two'", '"""three"""'],
+        ["'a' 'b'", "'c'"],
+        ['"""doc."""', "value = 1", "'attribute doc'"],
+        ['"""doc."""', "'x'", "value = 'y'"],
+        ["'lone'"],
+        ["b'bytes'", "'text'"],
+        ["r'raw\\d'", "u'uni'"],
+    ]
+    out = []
+    for bname, shape in bodies.items():
+        for ri, run in enumerate(runs):
+            def block(ind):
+                return "\n".join(ind + l for st in run for l in st.split("\n"))
+            src = shape.replace("{B4}", block("    ")).replace("{B8}", block("        ")).replace("{B}", block("") + "\nafter = 1\n")
+            out.append((f"paren-family/strings/{bname}/{ri}", "cond = y = E = ctx = None\n" + src))
+    return out
+
+
 def cases(tier, seed):
     import random
     rnd = random.Random(f"{seed}/C08/cases")
@@ -1060,7 +1096,7 @@ def run_case(spec):
                 total += _check_variant(res, sn, rnd, spec["nmut"], {"file": rel, "snippet_variant": j})
             res.sample({"kind": "file", "path": rel, "chars": len(src), "violations": total})
         elif spec["kind"] == "seeds":
-            for label, sn in WITNESSES + paren_family():
+            for label, sn in WITNESSES + paren_family() + string_family():
                 if corpus.compiles(sn):
                     res.ev("witness_sources")
                     total += check_source(sn, res, {"witness": label, "source": sn})
